@@ -274,7 +274,18 @@ func (ex *Exec) doSelect(st *State, fr *Frame, x *ssa.Select) {
 		}})
 	}
 	if len(alts) > 1 {
-		st.choices = append(st.choices, fmt.Sprintf("select@%s:%d-ready", ex.sitePos(fr, x), len(alts)))
+		// all ready cases are explored for the first `selectforks` multi-ready selects of a
+		// path; after that the first ready case is taken (one schedule instead of all)
+		lim, ok := ex.params["selectforks"]
+		if !ok {
+			lim = 64
+		}
+		if st.selForks >= lim {
+			alts = alts[:1]
+		} else {
+			st.selForks++
+			st.choices = append(st.choices, fmt.Sprintf("select@%s:%d-ready", ex.sitePos(fr, x), len(alts)))
+		}
 	}
 	ex.forkAlts(st, fr, x, alts)
 }
